@@ -81,7 +81,15 @@ func runC17(c *Ctx) {
 		rel := relayedGate(true)
 		notRel := relayedGate(false)
 		c.RequireAnyGate("C17.1-relay-ingress", relayPublish, []Gate{GBool("Relay.IsResponsibleNode(space, peer)==true", calleeMethod("commonspace/pubsub", "IsResponsibleNode"), 0, true), notRel}, nil, fo, "fanout", nil, false)
-		be := GBool("bytesEqual(ctxIdentity, p.Identity)==true", CalleeFn(f("bytesEqual")), 0, true)
+		// the package's own bytesEqual or the standard bytes.Equal
+		bytesEqFn := p.FuncOpt(psPkg + ":bytesEqual")
+		stdBytesEq := p.PkgFunc("bytes:Equal")
+		be := GBool("bytesEqual(ctxIdentity, p.Identity)==true", func(cc *ssa.CallCommon) bool {
+			if bytesEqFn != nil && CalleeFn(bytesEqFn)(cc) {
+				return true
+			}
+			return CalleeIs(stdBytesEq)(cc) && len(cc.Args) == 2 && (IsLoadOfField(cc.Args[0], pub("Identity")) || IsLoadOfField(cc.Args[1], pub("Identity")))
+		}, 0, true)
 		c.RequireAnyGate("C17.1-relay-ingress", relayPublish, []Gate{be, rel}, nil, fo, "fanout", nil, false)
 		// non-empty identities
 		lenNZ := func(desc string, isV func(ssa.Value) bool) Gate {
@@ -190,7 +198,7 @@ func runC17(c *Ctx) {
 		})
 		c.RequireAnyGate("C17.1-client-ingress", receivePublish, []Gate{GErrNil("Crypto.Decrypt()==nil", calleeMethod("commonspace/pubsub", "Decrypt")), noKey}, nil, sinks, "enqueueLocalMatched", nil, false)
 		// dedup only after verify
-		c.RequireGate("C17.1-dedup-after-verify", receivePublish, vs, CallSinks(receivePublish, seen, false), "dedup.seen (consults AND records the id)")
+		c.RequireGate("C17.1-dedup-after-verify", receivePublish, vs, CallSinksX(receivePublish, seen, false), "dedup.seen (consults AND records the id)")
 		// the verified key is the one decoded from the message identity; signature over publishSignData
 		psd := f("publishSignData")
 		for _, cs := range CallSinks(verifySig, cryptoVerify, false) {
@@ -419,13 +427,29 @@ func runC17(c *Ctx) {
 	{
 		bc := p.Func(spPkg + ":(*streamPool).Broadcast")
 		var app []ssa.Instruction
-		Instrs(bc, func(in ssa.Instruction) {
-			if cc, ok := in.(*ssa.Call); ok {
-				if b, isB := cc.Call.Value.(*ssa.Builtin); isB && b.Name() == "append" && strings.Contains(cc.Type().String(), "stream") {
-					app = append(app, in)
+		collect := func(fn *ssa.Function) {
+			Instrs(fn, func(in ssa.Instruction) {
+				if cc, ok := in.(*ssa.Call); ok {
+					if b, isB := cc.Call.Value.(*ssa.Builtin); isB && b.Name() == "append" && strings.Contains(cc.Type().String(), "stream") {
+						app = append(app, in)
+					}
+				}
+			})
+		}
+		collect(bc)
+		if len(app) == 0 {
+			// the collecting section was extracted into a new helper of Broadcast
+			for _, ci := range CallsIn(bc) {
+				if h := CalleeFunc(ci.Common()); h != nil && h.Blocks != nil && IsNewFunc(h) {
+					collect(h)
+					if len(app) > 0 {
+						bc = h
+						break
+					}
 				}
 			}
-		})
+		}
+		c.Fn(FuncName(bc))
 		miss := GCmp("stream id not yet in seen-set", func(a Atom) (bool, bool) {
 			if a.Op != token.ILLEGAL {
 				return false, false
